@@ -25,7 +25,7 @@ for i in ids:
         na.append({"property_id": i, "reason": (p or {}).get("reason", "no contract within reach has been built for this property yet; see DESIGN.md")})
 m = {
     "version": 1,
-    "setup_cmd": "cd /verif/gocv && GOFLAGS=-mod=vendor GOPROXY=off GOSUMDB=off GOTOOLCHAIN=local go build -o ../bin/gocv ./cmd/gocv",
+    "setup_cmd": "cd /verif/gocv && GOFLAGS=-mod=vendor GOPROXY=off GOSUMDB=off GOTOOLCHAIN=local go build -o ../bin/gocv ./cmd/gocv && cd /verif/bounded && GOFLAGS=-mod=mod GOPROXY=off GOSUMDB=off GOTOOLCHAIN=local go build -o ../bin/bounded .",
     "hooks": {
         "guard": "verif",
         "enable": "go build -tags verif (the hook files are comment-only zz_verif_contracts.go files; gocv loads packages with -tags=verif)",
